@@ -21,6 +21,12 @@ fn leaf(dims: &[usize], salt: usize, kind: u8, var: u64) -> Leaf {
     let vals = match kind {
         0 => vals(n, salt, var),
         1 => vals_signed(n, salt, var),
+        3 => {
+            // small and tiny positive magnitudes (derivatives such as 1/x are huge but finite there): an
+            // absolute quantity mixed into a relative one - x + epsilon - shows only here
+            let tiny = if IS_F32 { [1.0e-3, 1.0e-7, 0.25, 1.0e-12, 1.0e-17, 3.0e-19, 0.9990234375, 1.0e-18] } else { [1.0e-3, 1.0e-7, 0.25, 1.0e-12, 1.0e-17, 3.0e-100, 0.9990234375, 1.0e-140] };
+            (0..n).map(|i| tiny[(i + salt + var as usize) % tiny.len()]).collect()
+        }
         _ => vals_small(n, salt, var),
     };
     Leaf { dims: dims.to_vec(), vals }
@@ -46,6 +52,10 @@ pub fn single_op_space(tier: Tier, var: u64) -> Vec<Single> {
         (OpK::Relu, 1),
         (OpK::Sigmoid, 2),
         (OpK::Softmax, 2),
+        (OpK::Ln, 3),
+        (OpK::Powf(0.5), 3),
+        (OpK::Scale(3.0), 3),
+        (OpK::Sigmoid, 3),
     ];
     if tier == Tier::Thorough {
         unary.push((OpK::Powf(1.5), 2));
